@@ -1,0 +1,16 @@
+//go:build verif
+
+// Verification hooks: thin exported wrappers around unexported functions.
+// Compiled only with `-tags verif`; they add no behaviour.
+
+package processors
+
+// VerifRegexpStr exposes CmdLine.regexpStr.
+func (c *CmdLine) VerifRegexpStr(input string) string {
+	return c.regexpStr(input)
+}
+
+// VerifStash returns the stash of stored expressions.
+func (ctx *Context) VerifStash() map[string]string {
+	return ctx.stash
+}
